@@ -18,6 +18,14 @@ StartOutOfRange ==
   Len(C.blocks) = 1 /\ \A iv \in Introns(C.tx) :
      LET o == IntronOffsets(C.tx, C.blocks[1], iv) IN o[1] < C.startRange[1] \/ o[1] > C.startRange[2]
 
+(* an annotated intron accepts a reported block when the start offset is inside the start   *)
+(* range and the end offset is inside the end range or the block ends before the next exon *)
+Accepts(iv) ==
+  LET o == IntronOffsets(C.tx, C.blocks[1], iv) IN
+  /\ o[1] >= C.startRange[1] /\ o[1] <= C.startRange[2]
+  /\ ((o[2] >= C.endRange[1] /\ o[2] <= C.endRange[2]) \/ o[2] <= 0)
+SomeIntronAccepts == Len(C.blocks) = 1 /\ \E iv \in Introns(C.tx) : Accepts(iv)
+
 Verdict ==
   /\ Clause("fragments", C.outcome = "record" => ToSet(C.frags) = CircFragmentsExpected(C.gene, C.blocks))
   /\ Clause("sequence", C.outcome = "record" => C.seq = CircSeqExpected(C.chrom, C.gene, C.blocks))
@@ -27,5 +35,6 @@ Verdict ==
   /\ Clause("unknown_exons_skipped", (C.kind = "circRNA" /\ ~AllExons) => C.outcome = "absent")
   /\ Clause("exact_intron_emitted", (C.enough /\ C.kind = "ciRNA" /\ ExactIntron /\ 0 >= C.startRange[1] /\ 0 <= C.startRange[2]) => C.outcome = "record")
   /\ Clause("intron_start_tolerance", (C.kind = "ciRNA" /\ StartOutOfRange) => C.outcome = "absent")
+  /\ Clause("intron_tolerance", (C.enough /\ C.kind = "ciRNA") => ((C.outcome = "record") = SomeIntronAccepts))
   /\ PrintT(<<"V", i, "done">>)
 =============================================================================
